@@ -10,7 +10,12 @@ import (
 	"math/rand"
 	"os"
 	"path/filepath"
+	"reflect"
+	"strconv"
 	"strings"
+
+	"github.com/tsawler/tabula"
+	"github.com/tsawler/tabula/reader"
 
 	"github.com/tsawler/tabula/docx"
 	"github.com/tsawler/tabula/epubdoc"
@@ -23,9 +28,120 @@ import (
 	"verifharness/gen/logical"
 	"verifharness/gen/odf"
 	"verifharness/gen/ooxml"
+	"verifharness/gen/pdfw"
 )
 
-var reuseCalls = []string{"Text", "Markdown", "TextX", "MarkdownX", "Document", "TextH", "MarkdownF"}
+var reuseCalls = []string{"Text", "Markdown", "TextX", "MarkdownX", "Document", "TextH", "MarkdownF",
+	// side views of the same parsed state (only where the reader has them): called by reflection, compared as JSON
+	"@Tables", "@ModelTables", "@Lists", "@ModelLists", "@Metadata", "@HeaderTexts", "@FooterTexts", "@Chapters", "@SheetNames"}
+
+// pdfReuseCalls: one reader.Reader handed to tabula.FromReader again and again
+// (the caller owns it), plus direct page extraction in any page order.
+var pdfReuseCalls = []string{"Text", "Markdown", "TextX", "MarkdownX", "Document", "TextH", "MarkdownF", "Fragments", "FragmentsX", "Chunks", "ChunksX", "Page:first", "Page:last", "PageX:last", "Raw:last", "Raw:first", "Lines", "Analyze"}
+
+func callPDF(rd *reader.Reader, call string) string {
+	res := func(s string, err error) string {
+		if err != nil {
+			return "ERR: " + err.Error()
+		}
+		return s
+	}
+	js := func(d any, err error) string {
+		if err != nil {
+			return "ERR: " + err.Error()
+		}
+		b, _ := json.Marshal(d)
+		return string(b)
+	}
+	n, _ := rd.PageCount()
+	ex := tabula.FromReader(rd)
+	name, arg, _ := strings.Cut(call, ":")
+	pageNo := 1
+	if arg == "last" && n > 0 {
+		pageNo = n
+	} else if k, err := strconv.Atoi(arg); err == nil && n > 0 {
+		pageNo = 1 + k%n
+	}
+	switch name {
+	case "Text":
+		s, _, err := ex.Text()
+		return res(s, err)
+	case "TextX":
+		s, _, err := ex.ExcludeHeadersAndFooters().Text()
+		return res(s, err)
+	case "TextH":
+		s, _, err := ex.ExcludeHeaders().Text()
+		return res(s, err)
+	case "Markdown":
+		s, _, err := ex.ToMarkdown()
+		return res(s, err)
+	case "MarkdownX":
+		s, _, err := ex.ExcludeHeadersAndFooters().ToMarkdown()
+		return res(s, err)
+	case "MarkdownF":
+		s, _, err := ex.ExcludeFooters().ToMarkdown()
+		return res(s, err)
+	case "Document":
+		d, _, err := ex.Document()
+		return js(d, err)
+	case "Fragments":
+		d, _, err := ex.Fragments()
+		return js(d, err)
+	case "FragmentsX":
+		d, _, err := ex.ExcludeHeadersAndFooters().Fragments()
+		return js(d, err)
+	case "Chunks", "ChunksX":
+		if name == "ChunksX" {
+			ex = ex.ExcludeHeadersAndFooters()
+		}
+		cc, _, err := ex.Chunks()
+		if err != nil {
+			return "ERR: " + err.Error()
+		}
+		var sb strings.Builder
+		for _, ch := range cc.Chunks {
+			fmt.Fprintf(&sb, "%d-%d|%v|%s\n", ch.Metadata.PageStart, ch.Metadata.PageEnd, ch.Metadata.SectionPath, ch.Text)
+		}
+		return sb.String()
+	case "Page":
+		s, _, err := ex.Pages(pageNo).Text()
+		return res(s, err)
+	case "PageX":
+		s, _, err := ex.Pages(pageNo).ExcludeHeadersAndFooters().Text()
+		return res(s, err)
+	case "Raw":
+		pg, err := rd.GetPage(pageNo - 1)
+		if err != nil {
+			return "ERR: " + err.Error()
+		}
+		return js(rd.ExtractTextFragments(pg))
+	case "Lines":
+		return js(ex.Lines())
+	case "Analyze":
+		return js(ex.Analyze())
+	}
+	return "?"
+}
+
+// callReflect calls a zero-argument exported method if the reader has it.
+func callReflect(r any, method string) string {
+	m := reflect.ValueOf(r).MethodByName(method)
+	if !m.IsValid() || m.Type().NumIn() != 0 {
+		return "n/a"
+	}
+	var parts []string
+	for _, v := range m.Call(nil) {
+		if e, ok := v.Interface().(error); ok && e != nil {
+			return "ERR: " + e.Error()
+		}
+		b, err := json.Marshal(v.Interface())
+		if err != nil {
+			b = []byte(fmt.Sprintf("%+v", v.Interface()))
+		}
+		parts = append(parts, string(b))
+	}
+	return strings.Join(parts, "|")
+}
 
 type rdr interface {
 	Close() error
@@ -50,6 +166,12 @@ func callOn(kind string, r any, call string) (out string) {
 		}
 		b, _ := json.Marshal(d)
 		return string(b)
+	}
+	if strings.HasPrefix(call, "@") {
+		return callReflect(r, call[1:])
+	}
+	if rd, ok := r.(*reader.Reader); ok {
+		return callPDF(rd, call)
 	}
 	h, f := strings.HasSuffix(call, "X") || strings.HasSuffix(call, "H"), strings.HasSuffix(call, "X") || strings.HasSuffix(call, "F")
 	text := strings.HasPrefix(call, "Text")
@@ -176,6 +298,12 @@ func openReader(kind, path string) (any, func(), error) {
 			return nil, nil, err
 		}
 		return r, func() { r.Close() }, nil
+	case "pdf":
+		r, err := reader.Open(path)
+		if err != nil {
+			return nil, nil, err
+		}
+		return r, func() { r.Close() }, nil
 	}
 	return nil, nil, fmt.Errorf("no reader for %s", kind)
 }
@@ -213,7 +341,7 @@ func readerReuse(c *dctx, docs []docFile, dir string) {
 	// extra documents with header/footer parts and body copies of their lines
 	var pool []docFile
 	for _, d := range docs {
-		if d.Kind != "pdf" && d.Kind != "bad" {
+		if d.Kind != "bad" {
 			pool = append(pool, d)
 		}
 	}
@@ -224,10 +352,87 @@ func readerReuse(c *dctx, docs []docFile, dir string) {
 		os.WriteFile(p, officeWithMarginCopies(r, f), 0o644)
 		pool = append(pool, docFile{p, f, "office document whose header/footer lines also occur in the body"})
 	}
+	// office documents with several tables carrying merged regions (views such as
+	// Tables() / ModelTables() and Markdown() share the parsed tables)
+	for i := 0; i < c.N(10, 40); i++ {
+		r := c.Rand("reuse-tables", i)
+		f := []string{"odt", "docx"}[i%2]
+		var d *logical.Doc
+		for try := 0; try < 40; try++ { // several tables, vertical merges among them
+			d = logical.Gen(r, fw.NewTokens(r), logical.Profile{MinBlocks: 6, MaxBlocks: 10, Tables: true, MaxRows: 5, MaxCols: 4, Spans: true, MultiPara: true, EmptyCells: true, BlockBias: "tables", Styles: 1, Lists: true, ListMaxDepth: 2})
+			nt := 0
+			for _, bl := range d.Blocks {
+				if bl.Kind == logical.BTable {
+					nt++
+				}
+			}
+			if nt >= 3 && d.Features["table.rowspan"] {
+				break
+			}
+		}
+		var data []byte
+		if f == "docx" {
+			data = ooxml.WriteDocx(d, ooxml.DocxOptions{})
+		} else {
+			data = odf.WriteODT(d, odf.Options{})
+		}
+		p := filepath.Join(dir, fmt.Sprintf("reusetab%03d.%s", i, f))
+		os.WriteFile(p, data, 0o644)
+		pool = append(pool, docFile{p, f, "office document with several tables with merged regions"})
+	}
+	// PDFs with running header / footer lines and page numbers (exclusion really filters)
+	for i := 0; i < c.N(4, 30); i++ {
+		r := c.Rand("reuse-hf", i)
+		tk := fw.NewTokens(r)
+		np := 3 + r.Intn(4)
+		head, foot := "Report "+tk.Next(), "Confidential "+tk.Next()
+		var pages []pdfw.SimplePage
+		for pn := 0; pn < np; pn++ {
+			pg := pdfw.SimplePage{W: 612, H: 792}
+			pg.Items = append(pg.Items, pdfw.SimpleItem{X: 72, Y: 760, Size: 10, Text: head})
+			y := 700.0
+			for l := 0; l < 4+r.Intn(5); l++ {
+				pg.Items = append(pg.Items, pdfw.SimpleItem{X: 72, Y: y, Size: 11, Text: tk.Next() + " " + tk.Next() + " " + tk.Next()})
+				y -= 16
+			}
+			pg.Items = append(pg.Items, pdfw.SimpleItem{X: 72, Y: 40, Size: 10, Text: foot}, pdfw.SimpleItem{X: 500, Y: 40, Size: 10, Text: fmt.Sprintf("Page %d", pn+1)})
+			pages = append(pages, pg)
+		}
+		p := filepath.Join(dir, fmt.Sprintf("reusehf%03d.pdf", i))
+		os.WriteFile(p, pdfw.SimplePDF(pages), 0o644)
+		pool = append(pool, docFile{p, "pdf", "PDF with a running header, footer and page numbers"})
+	}
+	// PDFs whose pages share one inherited Resources dictionary (direct /Font
+	// sub-dictionary) while forms bring their own resources naming other fonts
+	// /F1…: anything one page's extraction leaves behind in the shared, cached
+	// dictionaries shows on the other pages
+	for i := 0; i < c.N(8, 40); i++ {
+		for try := 0; try < 20; try++ {
+			r := c.Rand("reuse-formrot", i, try)
+			g := pdfw.GenDoc(r, pdfw.DocOpts{MinPages: 3, MaxPages: 5, MaxLines: 8, MaxFonts: 3, TreeDepth: 2, Inherit: []string{"root", "parent"}[i%2], NoEmptyPages: true, FontWidths: true})
+			if len(g.Doc.Fonts) < 2 {
+				continue
+			}
+			lay := pdfw.RandomLayout(r, 1)
+			lay.Forms, lay.FontNameRot, lay.FontsDirect, lay.ResIndirect = true, true, i%4 == 3, false
+			b := pdfw.Build(r.Int63(), lay, []*pdfw.Doc{g.Doc})
+			has := map[string]bool{}
+			for _, f := range b.Features {
+				has[f] = true
+			}
+			if !has["content.form"] || !has["res.font-names-rotated"] {
+				continue
+			}
+			p := filepath.Join(dir, fmt.Sprintf("reuseform%03d.pdf", i))
+			os.WriteFile(p, b.Bytes, 0o644)
+			pool = append(pool, docFile{p, "pdf", "PDF with shared page resources and forms that rename the fonts"})
+			break
+		}
+	}
 	if len(pool) == 0 {
 		return
 	}
-	for h := 0; h < c.N(150, 2500); h++ {
+	for h := 0; h < c.N(400, 5000); h++ {
 		id := fmt.Sprintf("reuse:%d", h)
 		if !c.Want(id) {
 			continue
@@ -239,8 +444,22 @@ func readerReuse(c *dctx, docs []docFile, dir string) {
 			continue
 		}
 		var seq []string
+		calls := reuseCalls
+		if d.Kind == "pdf" {
+			calls = pdfReuseCalls
+		}
 		for k := 2 + r.Intn(5); k > 0; k-- {
-			seq = append(seq, reuseCalls[r.Intn(len(reuseCalls))])
+			if d.Kind == "pdf" && r.Intn(2) == 0 {
+				// single pages in any order: a page's result must not depend on what the reader served before
+				seq = append(seq, fmt.Sprintf("%s:%d", []string{"Page", "Raw", "PageX"}[r.Intn(3)], r.Intn(8)))
+				continue
+			}
+			if d.Kind != "pdf" && r.Intn(4) == 0 {
+				// side views between the renderings
+				seq = append(seq, []string{"@Tables", "@ModelTables", "@Lists", "@ModelLists"}[r.Intn(4)])
+				continue
+			}
+			seq = append(seq, calls[r.Intn(len(calls))])
 		}
 		for i, call := range seq {
 			got := callOn(d.Kind, rd, call)
